@@ -119,16 +119,23 @@ def run(chk: Check):
     records: List[dict] = []
     try:
         # AKAI
-        cases = c01.generate(chk, 200 if not thorough else 400, chk.seed + 41, label="AKAI images for truncation", nsect=14, maxparts=2, maxvols=2, maxfiles=3)
-        def inversions(c):      # directory order vs allocation order: a later entry lying physically before an earlier one
+        cases = c01.generate(chk, 640 if not thorough else 1600, chk.seed + 41, label="AKAI images for truncation", nsect=14, maxparts=2, maxvols=2, maxfiles=3)
+        cases += c01.generate(chk, 160 if not thorough else 480, chk.seed + 43, label="AKAI images with directory order reversed against allocation order",
+                              nsect=20, maxparts=1, maxvols=2, maxfiles=3, inverted=True)
+        SAMPLE, PARSED = (243, 115), (243, 115)                 # files `export` writes / files whose header parse reads the data sectors
+        def inversions(c):      # directory order vs allocation order: a later SAMPLE lying physically before an earlier parsed file
             n = 0
             for p in c["parts"]:
                 for v in p["vols"]:
                     fs = v["files"]
                     n += sum(1 for i in range(len(fs)) for j in range(i + 1, len(fs))
-                             if not fs[i]["pair"] and not fs[j]["pair"] and fs[i]["chain"][0] > max(fs[j]["chain"]))
+                             if not fs[j]["pair"] and fs[i]["ftype"] in PARSED and fs[j]["ftype"] in SAMPLE
+                             and fs[i]["chain"][0] > max(fs[j]["chain"]))
             return n
-        inv = sorted(cases, key=lambda c: -inversions(c))[:(2 if not thorough else 8)]
+        inv = [c for c in sorted(cases, key=lambda c: -inversions(c)) if inversions(c) > 0][:(3 if not thorough else 10)]
+        chk.extra["inverted_layouts"] = [inversions(c) for c in inv]
+        if not inv:
+            raise tlc.TlcError("no generated AKAI image lists a parsed file before a sample that lies physically in front of it")
         pick = sorted(cases, key=lambda c: (-len(c["parts"]), -sum(len(v["files"]) for p in c["parts"] for v in p["vols"])))
         pick = (pick[:3] + [c for c in cases if any(f["pair"] for p in c["parts"] for v in p["vols"] for f in v["files"])][:2]) if not thorough else \
                (pick[:12] + [c for c in cases if any(f["pair"] for p in c["parts"] for v in p["vols"] for f in v["files"])][:8])
